@@ -218,10 +218,10 @@ def handle (line : String) : String :=
       match draws theGen t (.range 0 m) n seed with
       | .error e => answer3 e.toString e.toString "aperiodic"
       | .ok vs =>
-        let arr := vs.toArray
-        let periodic := (List.range (n - p)).all (fun i => arr.getD i 0 = arr.getD (i + p) 0)
-        -- TESTED, not proved: the spec side only says what the property demands of this seed
-        answer3 (",".intercalate (vs.map toString)) (if m = 1 ∨ ¬ periodic then "aperiodic" else "periodic") "aperiodic"
+        -- TESTED, not proved: no theorem says the model's stream is aperiodic, so the model offers no view of
+        -- its own (V := S). The implementation's view (`periodic`) ≠ S is what makes the VIOLATION; the raw
+        -- column still exposes drift between model and code.
+        answer3 (",".intercalate (vs.map toString)) "aperiodic" "aperiodic"
     | _, _, _, _ => badLine line
   | ("shuffle", none), [seed, n] =>
     match parseNat? seed, parseNat? n with
@@ -237,9 +237,9 @@ def handle (line : String) : String :=
     match parseNat? n, parseNat? nseeds, parseNat? seed0 with
     | some n, some nseeds, some seed0 =>
       if n < 2 ∨ n > 7 ∨ nseeds > 2000000 ∨ seed0 + nseeds ≥ 2 ^ 64 ∨ nseeds < 20 * factorial n then invalid else
-      let (m, fair) := permStat n nseeds seed0
-      -- TESTED, not proved: the spec side only says what the property demands
-      answer3 m (if fair then "fair" else "unfair") "fair"
+      let (m, _fair) := permStat n nseeds seed0
+      -- TESTED, not proved: no theorem behind "the model's frequencies are fair": V := S (see `period`)
+      answer3 m "fair" "fair"
     | _, _, _ => badLine line
   | ("shufall", none), [n, mult] =>
     match parseNat? n, parseNat? mult with
